@@ -81,12 +81,19 @@ func c03Gen(tier string, seed int64) []ev.Case {
 	} else {
 		cs = append(cs, ev.MkCase("sess", c03Sess{Suite: int(seed % 9), Seed: seed, N: 40, Order: "random", Class: "mixed", Retries: true, UDP: true}))
 	}
+	for _, su := range []int{int(seed % 9), int((seed + 4) % 9)} {
+		cs = append(cs, ev.MkCase("rngfail", c03Sess{Suite: su, Seed: seed}))
+	}
 	return cs
 }
 
 func c03Exec(run *ev.Run, c ev.Case) {
 	var s c03Sess
 	c.Decode(&s)
+	if c.Kind == "rngfail" {
+		c03RNG(run, s.Suite, c)
+		return
+	}
 	r := rng(s.Seed+int64(s.Suite)*17, "c03"+s.Order+s.Class)
 	cfg := defaultCfg(r)
 	su := stdSuites()[s.Suite%9]
@@ -206,6 +213,29 @@ func c03Exec(run *ev.Run, c ev.Case) {
 		l := lengths[i]
 		if s.Order == "random" {
 			l = r.Intn(201)
+		}
+		if i%6 == 1 {
+			// the connection under the session is still used for session-less commands (twice
+			// running, as a poller asking for the GUID does): nothing of that may be addressed
+			// to the session, or repeat anything that was
+			for k := 0; k < 2; k++ {
+				cur = nil
+				f0 := b.Len()
+				safe(func() { st.GetSystemGUID(ctx) })
+				for _, e := range b.Since(f0) {
+					run.Event("sessionless-datagrams-between", 1)
+					if e.Kind != "sessionless-ipmi" || e.SID != 0 {
+						detail := ""
+						if e.IV != nil {
+							if _, dup := c03IVs.LoadOrStore(string(e.IV), true); dup {
+								detail = fmt.Sprintf(" (its IV %x was used before)", e.IV)
+							}
+						}
+						run.Violation("C03:session-datagram-from-sessionless-call", fmt.Sprintf("suite %v: a session-less Get System GUID between in-session commands put a %s datagram addressed to session %#x on the wire%s: %x", su, e.Kind, e.SID, detail, e.Raw), c, nil)
+						return
+					}
+				}
+			}
 		}
 		g := genCommand(r, kind, l)
 		run.Eval(1)
